@@ -1,3 +1,4 @@
+import NgoVerif.Generated.Tables
 import NgoVerif.Meta.Fold
 import NgoVerif.Meta.Split
 /-!
@@ -36,5 +37,11 @@ theorem C10_factor_complete {α E K : Type} (S : HT.SplitData α E K) (h : S.WF)
     (hT' : HT.Stable (HT.Union S.folded (S.defs h).rules) T') :
     ∃ T, HT.Stable S.orig T ∧ ∀ a, T' a ↔ HT.ext (S.defs h) T a :=
   S.split_complete h hg T' hT'
+
+/-- `api.optimize` (read from the source on every run) constructs this pass with the current program and the caller's
+own declaration lists, under the parameter names the class declares, and replaces the current program by its result -/
+theorem C10_wiring :
+    Tables.API_ARGS.lookup "duplication" = some (["input_", "input_predicates"], "input_", "input_") ∧
+    Tables.CTOR_PARAMS.lookup "duplication" = some ["prg", "input_predicates"] := by decide
 
 end NgoVerif
